@@ -380,6 +380,11 @@ def run(repo, chk):
         chk.expect(bad is None, 'C16.E6', 'gen_block cleanup condition',
                    f'`{src(test)}`: with exited={bad[0] if bad else ""} modes={bad[1] if bad else ""} cleanup emitted={bad[2] if bad else ""}; '
                    'cleanup code must be emitted iff the block can complete normally and did not exit', GEN, test.lineno)
+    # terminal calls are terminal in the emitted code too: a defeat site is `[Jump(defeat)] Halt` (shared with C03.J1/J2)
+    if chk.__class__.__name__ == 'Check':
+        from . import c03
+        from ..report import Remap
+        c03.run(repo, Remap(chk, {'C03.J1': 'C16.E4', 'C03.J2': 'C16.E4', 'C03.J4': 'C16.E4'}))
     chk.exhaustive = True
     chk.sample({'loop_table': {c: sorted(nm(D.LoopBlock(None, D.stub(D.mk(['NONE', 'BREAK'])), cond,
                                D.CodeBlock((), None, False, EM.NONE)).exit_modes()))
